@@ -194,10 +194,9 @@ def build_source(SM):
   return "\n".join(parts), stats
 
 
-def gen_ksensor():
-  if "k" in _cache:
-    return _cache["k"]
-  import translate as T
+def _module():
+  if "mod" in _cache:
+    return _cache["mod"]
   import tvalid
 
   import mujoco_warp._src.sensor as SM
@@ -213,20 +212,39 @@ def gen_ksensor():
     mod = importlib.reload(sys.modules[MODNAME])
   else:
     mod = importlib.import_module(MODNAME)
-  tr = T.Translator()
-  tr.kernels = {}
-  tr.inlined = stats
-  for kn in KERNELS:
-    try:
-      fi = tr.want_kernel(getattr(mod, kn))
-    except Exception as e:  # translator crash = fail closed for that kernel
-      tr.errors[f"kernel:{kn}"] = f"CRASH {type(e).__name__}: {e}"
-      fi = None
-    if fi is not None:
-      tr.kernels[kn] = fi
-  tr.emit(os.path.join(vlib.COQ, "Gen", "K_sensor.v"))
-  _cache["k"] = tr
-  return tr
+  _cache["mod"] = (mod, stats)
+  return mod, stats
 
 
-GENS = {"K_sensor": gen_ksensor}
+def _make(tag, kernels, outfile):
+  def gen():
+    if tag in _cache:
+      return _cache[tag]
+    import translate as T
+
+    mod, stats = _module()
+    tr = T.Translator()
+    tr.kernels = {}
+    tr.inlined = {k: stats[k] for k in kernels}
+    for kn in kernels:
+      try:
+        fi = tr.want_kernel(getattr(mod, kn))
+      except Exception as e:  # translator crash = fail closed for that kernel
+        tr.errors[f"kernel:{kn}"] = f"CRASH {type(e).__name__}: {e}"
+        fi = None
+      if fi is not None:
+        tr.kernels[kn] = fi
+    tr.emit(os.path.join(vlib.COQ, "Gen", outfile))
+    _cache[tag] = tr
+    return tr
+
+  return gen
+
+
+# `_sensor_acc` (contact-sensor slots: ~1300 generated lines, ~2 min of coqc) lives in its own file so
+# that the theorems (Props/C07.v imports Gen.K_sensor only) do not wait for it; it is built in parallel
+# and used by the kernel validation.
+GENS = {
+  "K_sensor": _make("k", [k for k in KERNELS if k != "_sensor_acc"], "K_sensor.v"),
+  "K_sensor_acc": _make("kacc", ["_sensor_acc"], "K_sensor_acc.v"),
+}
